@@ -697,22 +697,30 @@ def sched_replay(work, v, gen_module, family, trace_module, consts, num, seed, w
     runs = work.fresh("schedruns", ".ndjson")
     nsteps = 0
     with open(runs, "w") as f:
+        nunusable = 0
         for e in evs:
-            if e["t"] == "conc":
+            if e["t"] in ("conc", "phconc"):
                 f.write(json.dumps(e) + "\n")
                 continue
+            if e["status"] == "unusable":      # (Phase: no read set with exactly the failing reads of the configuration)
+                nunusable += 1
+                continue
             v.count_case(vf.digest([e["cfg"], e["steps"], e["id"]]))
-            v.sample({"schedule": e["id"], "configuration": e["cfg"], "steps": e["steps"], "followed": e["done"], "returned": e["ret"]})
+            v.sample({"schedule": e["id"], "configuration": e["cfg"], "steps": e["steps"], "followed": e["done"], "returned": e.get("ret", e.get("closed"))})
             nsteps += e["done"]
             failing = []
             if e["status"] != "followed":
                 failing.append("followsSchedule")
-            elif e["ret"] != e["want"]:
+            elif e["t"] == "sched" and e["ret"] != e["want"]:
                 failing.append("returns" if e["ret"] == "hang" else "sameReturn")
+            elif e["t"] == "phsched" and not e["closed"]:
+                failing.append("streamClosed")
             if failing:
                 v.finding({"op": what, "failing": failing, "kind": e["status"], "cfg": e["cfg"], "at_step": e["done"], "action": e.get("at"),
-                           "detail": e["detail"], "returned": e["ret"], "model_returns": e["want"]},
+                           "detail": e["detail"], "returned": e.get("ret"), "model_returns": e.get("want")},
                           {"family": "sched", "note": "re-run the pipeline of this property with the recorded tier and seed"})
+        if nunusable > n // 2:
+            raise vf.ToolingError("%s: %d of %d schedules could not be set up" % (what, nunusable, n))
     v.notes.append("%s: %d schedules generated by TLC replayed on the real goroutines (%d gated steps followed)" % (what, n, nsteps))
     if os.path.getsize(runs) > 0:
         conc_validate(work, v, trace_module, runs, what + " (arrival logs)", consts)
@@ -850,6 +858,8 @@ def _c16(work, v, tier, seed):
     phase_account(v, trace, res)
     trace = vf.drive(work, "phconc", n=40 if q else 400, seed=seed, tier=tier, timeout=3000)
     conc_validate(work, v, "Trace_PhaseConc", trace, "Phase protocol", {"SignalOnFail": "TRUE"})
+    # model -> code: schedules generated by TLC from the protocol, replayed on the real goroutines and the real consumer
+    sched_replay(work, v, "Gen_PhaseSched", "phsched", "Trace_PhaseConc", {"SignalOnFail": "TRUE"}, 50 if q else 1200, seed, "Phase schedule")
     race_run(work, v, "phconc", 30 if q else 300, seed, "Phase", procs=(1, 4, 16) if q else (1, 2, 4, 8, 16))
     v.assumptions += ["TLC and the CommunityModules evaluate TLA+ correctly", "the Go race detector reports every unordered conflicting access that occurs"]
 
